@@ -331,3 +331,69 @@ func (e *Eng) iterate(fr *Frame, c *ssa.CallCommon, kind, t string, clo *Val, in
 	e.sc.assume(implies(g, or(stopped, fmt.Sprintf("(forall ((p Int)) (! (=> (and (select %s p) %s) (select %s p)) :pattern ((select %s p))))", items, inRange("p", st), visited, items))), "iteration model: every item of the range is visited unless the callback stops")
 	_ = strings.TrimSpace
 }
+
+// repeatCallback: the rule for an external callee that calls a closure of the caller any number of times with
+// arguments constrained by argOK (rand.Shuffle). With I the conjunction of the `iter-invariant` clauses of the site:
+//
+//	entry: I holds at the call;
+//	step:  from any state satisfying I, one call of the closure with arbitrary admissible arguments re-establishes I;
+//	exit:  some state satisfying I (what the closure may write is arbitrary otherwise).
+func (e *Eng) repeatCallback(fr *Frame, c *ssa.CallCommon, clo *Val, argOK func(i int, a string) string, st *State, g string, pos token.Pos) {
+	name := calleeName(c)
+	var invs []*SiteSpec
+	sfr, own := fr.specFrame()
+	if sfr != nil {
+		for _, s := range sfr.fspec.Sites {
+			if s.Kind == "call" && s.Callee == name && s.Iter && (s.Ordinal == 0 || (own && s.Ordinal == e.siteOrdinal(sfr, "call", name))) {
+				invs = append(invs, s)
+			}
+		}
+	}
+	evalInvs := func(s *State) []string {
+		var out []string
+		for _, iv := range invs {
+			env := e.siteEnv(sfr)
+			out = append(out, e.evalClause(iv.Clause, env, s, sfr.oldFor(s), sfr))
+			e.siteHit(iv)
+		}
+		return out
+	}
+	for i, tm := range evalInvs(st) {
+		e.oblige("iter-entry", name+"/"+invs[i].Clause.Label, invs[i].Clause.Props, pos, g, tm)
+	}
+	fn := clo.Clo.Fn
+	oldFr := e.get(st, frRegion, "Int")
+	mods := e.modSet(fn)
+	gen := e.modGeneral[fn]
+	for _, r := range sortedKeys(mods) {
+		if gen != nil && !gen[r] && r != frRegion && r != clockRegion {
+			e.havocRegFresh(st, r, oldFr)
+		} else {
+			e.havocReg(st, r)
+		}
+	}
+	e.sc.assume(sx(">=", e.get(st, frRegion, "Int"), oldFr), "frontier monotone over the repeated callback")
+	for i, tm := range evalInvs(st) {
+		e.sc.assume(implies(g, tm), "repeated-callback invariant "+invs[i].Clause.Label)
+	}
+	if len(e.inlineStack) < e.maxInline+2 {
+		st2 := st.clone()
+		var cargs []*Val
+		gi := g
+		for i, p := range fn.Params {
+			v := e.havocVal(st2, "cb_"+p.Name(), p.Type())
+			cargs = append(cargs, v)
+			gi = and(gi, argOK(i, v.T))
+		}
+		e.inlineStack = append(e.inlineStack, fn)
+		e.sc.comment("callback " + fnKey(fn))
+		e.pendingUp = fr
+		_, out, outG := e.execFunc(fn, cargs, clo.Clo.Bindings, st2, gi, fr.depth+1, e.spec.Funcs[fnKey(fn)], e.namePrefix+"in:"+fnKey(fn)+"/")
+		e.inlineStack = e.inlineStack[:len(e.inlineStack)-1]
+		e.sc.comment("end callback " + fnKey(fn))
+		st2.reg = out.reg
+		for i, tm := range evalInvs(st2) {
+			e.oblige("iter-step", name+"/"+invs[i].Clause.Label, invs[i].Clause.Props, pos, outG, tm)
+		}
+	}
+}
